@@ -217,6 +217,35 @@ func (x *X) checkPanics() {
 	}
 }
 
+// checkFreePanics does the same for system-sim runs, where Helios' own goroutines run
+// freely: a panic there would have ended the real process.
+func (x *X) checkFreePanics() {
+	for _, p := range simrt.TakeFreePanics() {
+		site := heliosFrame(p.Stack)
+		if site == "" {
+			site = p.Task
+		}
+		prop := x.Prop
+		if prop == "" {
+			prop = "C12"
+		}
+		v := p.Value
+		if len(v) > 80 {
+			v = v[:80]
+		}
+		fp := prop + "/panic{" + site + "}"
+		dup := false
+		x.mu.Lock()
+		for _, o := range x.Violations {
+			dup = dup || (o.Property == prop && o.Fingerprint == fp)
+		}
+		if !dup && x.Want(prop) {
+			x.Violations = append(x.Violations, Violation{prop, fp, fmt.Sprintf("a goroutine started by Helios panicked, which ends the process: %s (innermost Helios frame %s, %s)", v, site, p.Task)})
+		}
+		x.mu.Unlock()
+	}
+}
+
 var heliosFrameRe = regexp.MustCompile(`(?m)^\s+\S*?/((?:internal|cmd/helios)/[^\s:]+\.go):(\d+)`)
 
 // heliosFrame returns the innermost non-test Helios frame of a stack trace ("" if none).
@@ -406,6 +435,7 @@ func execRun(t *testing.T, sc *Scenario, x *X) (out runOutcome) {
 				}
 			}()
 			sc.Run(x)
+			x.checkFreePanics()
 		})
 	}()
 	select {
